@@ -891,11 +891,11 @@ def gen_cases(tier):
     cases = []
     cases += list(gen_depth1(P_STD, small=not thorough))
     if thorough:
-        cases += list(gen_depth2(P_STD, rnd, 4000))
-        cases += list(gen_depth3(P_STD, rnd, 800))
-        cases += list(gen_random(rnd, 20, 50, (2, 3, 3, 4)))
-        cases += gen_kinds(rnd, P_STD, 120)
-        cases += gen_fn_histories(rnd, 100)
+        cases += list(gen_depth2(P_STD, rnd, 2500))
+        cases += list(gen_depth3(P_STD, rnd, 500))
+        cases += list(gen_random(rnd, 12, 50, (2, 3, 3, 4)))
+        cases += gen_kinds(rnd, P_STD, 60)
+        cases += gen_fn_histories(rnd, 60)
         cases += gen_holders(P_STD, rnd, None)
     else:
         cases += list(gen_depth2(P_STD, rnd, 200))
@@ -905,7 +905,7 @@ def gen_cases(tier):
         cases += gen_fn_histories(rnd, 12)
         cases += gen_holders(P_STD, rnd, 0)
     cases += gen_wild(P_STD, quick=not thorough)
-    cases += gen_malformed(rnd, cases, 600 if thorough else 60)
+    cases += gen_malformed(rnd, cases, 400 if thorough else 60)
     return cases
 
 
@@ -1338,7 +1338,7 @@ def run(tier):
         'rule': 'cases = (function prelude, sequence of requests, notebook flag); families: every nesting context x '
                 'every write filler (INSERT / UPDATE / DELETE / INSERT UNLESS CONFLICT / modifying object function / '
                 'count() of those / modifying, wrapper, read-only, declared-Modifying scalar functions) at depth 1 '
-                f'(all), depth 2 ({"4000" if thorough else "200"} sampled), depth 3 (sampled); random typed trees over random '
+                f'(all), depth 2 ({"2500" if thorough else "200"} sampled), depth 3 (sampled); random typed trees over random '
                 'function schemas; every statement kind x {single, inside a transaction, in a script} x notebook flag; '
                 'transaction / savepoint / migration-block sequences; CREATE/ALTER/DROP FUNCTION histories; DDL holders '
                 '(alias, computed global, computed property, access policy, global default, index, pointer default, '
